@@ -223,6 +223,9 @@ class CallMixin:
         """The contract of fi whose parameter types accept the actual arguments (variants are registered
         under `qualname:tag`); None when no variant fits (the callee is then inlined)."""
         cands = []
+        pref = (getattr(self, "cur_contract", None) or {}).get("callee_variants", {}).get(fi.qualname)
+        if pref is not None and f"{fi.qualname}:{pref}" in CONTRACTS:
+            return CONTRACTS[f"{fi.qualname}:{pref}"]      # (named by the caller's contract; its requires are call-site obligations)
         if fi.qualname in CONTRACTS and CONTRACTS[fi.qualname].get("returns") == "SDict":
             return None      # a plain dict with heterogeneous values has no symbolic representation: inline
         if fi.qualname in CONTRACTS:
